@@ -110,6 +110,7 @@ static const struct mc_harness *H;
 static int g_argc;
 static char **g_argv;
 static int verbose;
+static int replay_loose;	/* hand-written replay=1,0,2 without label hashes: only the menu size is checked */
 static int ignore_abnormal;
 static int scan_stderr;
 static char errfile[256];
@@ -232,7 +233,7 @@ int mc_choose_c(int n, int kind, const char *label, int altcost)
 	lh = labelhash(n, kind, label);
 	if (idx < XB->plen) {
 		v = XB->prefix[idx] & 0xffff;
-		if (v >= n || (XB->prefix[idx] >> 16) != lh) {
+		if (v >= n || (!replay_loose && (XB->prefix[idx] >> 16) != lh)) {
 			XB->verdict = 3;
 			snprintf((char *)XB->msg, MSGMAX,
 				 "replay divergence at choice %u (%s): recorded %d of lh %x, now n=%d lh %x",
@@ -972,6 +973,7 @@ int mc_main(int argc, char **argv, const struct mc_harness *h)
 		S->ht_mask = 0;
 		XB = &XB[0];
 		snprintf(errfile, sizeof(errfile), "%s/%s.%d.replay.err", rundir, H->name, (int)getpid());
+		replay_loose = !strchr(replay, ':');
 		XB->plen = parse_choices(replay, XB->prefix);
 		XB->bound = 100000;
 		verbose = mc_arg_int("verbose", 1);
